@@ -412,22 +412,20 @@ def mutate_def(rng, fields):
         c = [(lv, i) for lv in lvls for i, f in enumerate(lv) if pred(lv, i, f)]
         return rng.choice(c) if c else None
     if kind == "dup-name":
-        named = lambda f: f[0] in ("FUint", "FBuf", "FEnv", "FSeq")
-        c = pick(lambda lv, i, f: named(f) and sum(1 for g in lv if named(g)) >= 2)
-        if c:
+        # only between fields of the same value type, so that values stay typed (int / bytes / dict / list)
+        c = pick(lambda lv, i, f: f[0] in ("FUint", "FBuf", "FEnv", "FSeq") and sum(1 for g in lv if g[0] == f[0]) >= 2)
+        if c and rng.chance(2, 3):
             lv, i = c
-            others = [g for j, g in enumerate(lv) if j != i and named(g)]
+            others = [g for j, g in enumerate(lv) if j != i and g[0] == lv[i][0]]
             lv[i][1] = rng.choice(others)[1]
         else:
-            c = pick(lambda lv, i, f: f[0] == "FBits" and any(b[1] is not None for b in f[4]) and len(lv) >= 2)
+            c = pick(lambda lv, i, f: f[0] == "FBits" and any(b[1] is not None and b[3] is None for b in f[4])
+                     and any(g[0] == "FUint" for g in lv))
             if not c:
                 return None
             lv, i = c
-            tgt = [g for j, g in enumerate(lv) if j != i and g[0] in ("FUint", "FBuf", "FEnv", "FSeq")]
-            if not tgt:
-                return None
-            b = rng.choice([b for b in lv[i][4] if b[1] is not None])
-            b[1] = rng.choice(tgt)[1]
+            b = rng.choice([b for b in lv[i][4] if b[1] is not None and b[3] is None])
+            b[1] = rng.choice([g for g in lv if g[0] == "FUint"])[1]
     elif kind == "flex-middle":
         c = pick(lambda lv, i, f: i < len(lv) - 1)
         if not c:
@@ -630,6 +628,7 @@ def gen_value(rng, fields, st, path, base, target=None):
                     if L is None:
                         r, L = thr + 1, a
                     pending_rest = r
+                    st.sites.append(dict(kind="buf_tab", path=path, name=pyname(nm), n=L, ldl=(thr, a, b, r)))
                 else:
                     L = b
                     st.valid = False
@@ -756,7 +755,13 @@ def mutate_value(rng, env, site, fam):
         return e, "buf-fix-len"
     if k == "buf_tab":
         n = site["n"]
-        d[nm] = rng.bytes(rng.choice([x for x in (n - 1, n + 1, 0, n + 3) if x >= 0 and x != n]))
+        c = [x for x in (n - 1, n + 1, 0, n + 3) if x >= 0 and x != n]
+        if "ldl" in site:   # the rule looks at len(data): keep only lengths the rule itself would not choose
+            thr, a, b, r = site["ldl"]
+            c = [x for x in c if (a if x + r > thr else b) != x]
+            if not c:
+                return None
+        d[nm] = rng.bytes(rng.choice(c))
         return e, "buf-tab-len"
     if k == "bit":
         bl, x = site["bl"], site["x"]
@@ -994,6 +999,12 @@ def oracle(ctx, c, deep):
             fail("c16-bits-truncate", "over-wide bit-field value is not truncated to its width", expected=ref[:64])
         elif mut == "fixed-user" and ref is not None and o != ref:
             fail("c16-fixed-ignored", "user value of a fixed-value bit-field changes the encoding", expected=ref[:64])
+        elif mut == "buf-tab-len" and st == 0:
+            # recorded finding (known_findings.json): Field.to_bytes checks the length only when self.len > 0
+            ctx.count("varlen-buf-length-not-enforced")
+            if ctx.hist["varlen-buf-length-not-enforced"] <= 3:     # a few witnesses; the failure list is capped
+                ctx.oracle_fail("variable-length (callback) Buf accepts a value whose length disagrees with get_len: no EncodeError, decode(encode v) != v",
+                                show(c), key="c16-varlen-buf-length-not-enforced", expected="EncodeError", observed=bytes(o[3:]).hex())
         elif mut == "key-not-in-table" and not (st == 0 or o == [2, 1]):
             fail("c16-errors", "key value outside its table: expected success or EncodeError caused by KeyError")
         return
@@ -1073,6 +1084,8 @@ def run(ctx):
     n_cases = 0
     sampled = set()
     n_intended = n_intended_wfb = 0
+    witness = Def([("FUint", 0, ("LFix", 1), A, False, False, 0, 1), ("FBuf", 1, ("LTab", 0, [(0, 2), (1, 3)]), A)], True, None)
+    first = True
     while done < n_defs:
         if time.time() - t0 > budget:
             ctx.note("time budget reached after %d of %d definitions" % (done, n_defs))
@@ -1081,7 +1094,15 @@ def run(ctx):
         for _ in range(min(chunk, n_defs - done)):
             fields = gen_wf(rng)
             D = Def(fields, True, None)
-            if rng.chance(3, 20):
+            if first:
+                # fixed witness of the recorded finding c16-varlen-buf-length-not-enforced, always the first case
+                first, D = False, witness
+                w0 = mk_enc(D, {"f0": 1, "f1": b"\x01\x02"}, "buf-tab-len", False)
+                cases.append(w0)
+                o0 = impl_of(w0)
+                if o0[0] == 0:
+                    cases.append(mk_dec(D, True, bytes(o0[3:]), "encoding-of-invalid"))
+            elif rng.chance(3, 20):
                 m = None
                 for _ in range(6):
                     m = mutate_def(rng, fields)
